@@ -16,6 +16,8 @@ extern crate rustc_hir;
 extern crate rustc_interface;
 extern crate rustc_middle;
 extern crate rustc_span;
+extern crate rustc_infer;
+extern crate rustc_trait_selection;
 
 use rustc_driver::{Callbacks, Compilation};
 use rustc_hir::def::DefKind;
@@ -683,9 +685,28 @@ impl<'tcx> Cx<'tcx> {
                     ("fields", arr(fields)),
                 ]));
             }
+            // auto traits as rustc itself decides them (identity substitution, the item's own where-clauses as environment)
+            let mut send = "null".to_string();
+            let mut sync = "null".to_string();
+            {
+                use rustc_infer::infer::TyCtxtInferExt;
+                use rustc_trait_selection::infer::InferCtxtExt;
+                let ty = tcx.type_of(did).instantiate_identity().skip_norm_wip();
+                let tenv = TypingEnv::post_analysis(tcx, did);
+                let (infcx, penv) = tcx.infer_ctxt().build_with_typing_env(tenv);
+                if let Some(sd) = tcx.get_diagnostic_item(rustc_span::sym::Send) {
+                    send = infcx.type_implements_trait(sd, [ty], penv).must_apply_modulo_regions().to_string();
+                }
+                if let Some(sd) = tcx.get_diagnostic_item(rustc_span::sym::Sync) {
+                    sync = infcx.type_implements_trait(sd, [ty], penv).must_apply_modulo_regions().to_string();
+                }
+            }
             v.push(obj(vec![
                 ("path", esc(&self.path(did))),
                 ("kind", esc(&format!("{:?}", kind))),
+                ("send", send),
+                ("sync", sync),
+                ("generics", tcx.generics_of(did).count().to_string()),
                 ("vis", esc(&format!("{:?}", tcx.visibility(did)))),
                 ("span", esc(&self.span(tcx.def_span(did)))),
                 ("variants", arr(variants)),
